@@ -554,14 +554,14 @@ def decide(root, prop, tier, seed, scratch, t0, ev_path):
         dev = prop
         units = []
         hs = [dict(h, props=h["props"] + [prop]) for h in kani_harnesses(root)
-              if re.search(prop[5:], h["fn"]) and (tier == "thorough" or h["tier"] == "quick")]
+              if re.search(prop[5:], h["fn"]) and (h["tier"] != "manual" or tier == "manual") and (tier in ("thorough", "manual") or h["tier"] == "quick")]
     elif prop.startswith("UNIT:"):
         dev = prop
         units = [prop[5:]]
         hs = []
     else:
         units = units_for(root, prop)
-        hs = [h for h in kani_harnesses(root) if prop in h["props"] and (tier == "thorough" or h["tier"] == "quick")]
+        hs = [h for h in kani_harnesses(root) if prop in h["props"] and h["tier"] != "manual" and (tier == "thorough" or h["tier"] == "quick")]
     if not units and not hs:
         raise Undecided("no unit or harness is registered for %s" % prop)
     log("[%s/%s] verus units: %s; kani harnesses: %d" % (prop, tier, units, len(hs)))
